@@ -366,7 +366,9 @@ class Decoder(wiring.Component):
                     m.d.comb += sub_bus.bte.eq(getattr(self.bus, "bte", BurstTypeExt.LINEAR))
 
                 granularity_bits = exact_log2(self.bus.data_width // self.bus.granularity)
-                with m.Case(sub_pat[:-granularity_bits if granularity_bits > 0 else None]):
+                sub_pat = sub_pat[:-granularity_bits if granularity_bits > 0 else None]
+                # A memory map is at least 1 bit wide, even if the bus has no address bits.
+                with m.Case(sub_pat[:self.bus.addr_width]):
                     m.d.comb += [
                         sub_bus.cyc.eq(self.bus.cyc),
                         self.bus.dat_r.eq(sub_bus.dat_r),
